@@ -159,6 +159,34 @@ where
       | ["succ", x] => let x := num x
         res (firstOf .ident m b (b.successorQ m x)) (some (rOptPair (succSpec B x))) "bv.succ"
       | ["doc"] | ["ser"] => res (rWords (bitVectorC.ser b)) none "bv.ser"
+      -- public safe support-level API.  In range: exact value (spec from the reference bits).  Out of range the
+      -- documentation says "may panic": no spec.  For `T::word` the model states exactly what the code does; for the two
+      -- support structures the model only states "a panic or some value, never an out-of-range read" (`*`; the
+      -- outcome `oob` reported by the bounds hooks is what C08 forbids)
+      | ["tword", tr, i] => let i := num i
+        let tr := if tr == "C" then Tr.compl else Tr.ident
+        let TB := bitsT tr B
+        let spec := if 64 * i < B.length then
+            some (rNat ((List.range 64).foldl (fun acc k => if TB[64 * i + k]?.getD false then acc + 2 ^ k else acc) 0))
+          else none
+        res (render (fun w : Word => rNat w.toNat) (wordSafeT tr b.data i)) spec
+          (if 64 * i < B.length then "bv.tword" else "bv.tword.outside")
+      | ["tbit", tr, i] => let i := num i
+        let neg := tr == "C"
+        res (render (fun x : Bool => rBool01 (x != neg)) (b.get i))
+          (if i < B.length then some (rBool01 ((B[i]?.getD false) != neg)) else none) "bv.tbit"
+      | ["sup", "rank", i] => let i := num i
+        let inr := i < B.length
+        let out := safely ((RankSup.build b.data).rankU b.data i)
+        res (if inr then render rNat out else "*")
+          (if inr then some (rNat (rankSpec B i)) else none) (if inr then "bv.sup.rank" else "bv.sup.rank.outside")
+      | ["sup", "sel", tr, r] => let r := num r
+        let tr := if tr == "C" then Tr.compl else Tr.ident
+        let TB := bitsT tr B
+        let inr := r < TB.count true
+        let out := safely ((SelSup.build b.len (positionsT tr b.data)).selectU tr m b.data r)
+        res (if inr then render rNat out else "*")
+          (if inr then (selectSpec TB r).map rNat else none) (if inr then "bv.sup.sel" else "bv.sup.sel.outside")
       | "it" :: rest =>
         let (pre, calls) := splitColon rest
         (match pre with
